@@ -369,6 +369,15 @@ theorem c07_x_token_list_append :
 /-- the three repairs that are in the tree are seen by the extractor (the models used by the driver follow them) -/
 theorem c07_x_repairs_seen : SV.C07.fx = true ∧ SV.C07.cfg.allLast = true ∧ SV.C07.cfg.live = true := by decide
 
+/-- a reader's dictionary read (`getTokenProvider`, part of the model's `rLeaf`) takes the per-field TID list BEFORE the
+`tidToVal` slice - the mirror image of the writer's `createTIDs` -> `fillFieldTIDs`, so every TID of the list is
+inside the slice (`activeTokenProvider.GetToken` indexes it) -/
+theorem c07_x_token_provider_order : tokenProviderOrder = ["GetTIDsByField", "tidToVal"] := by decide
+
+/-- ownership at the enqueue boundary: `Active.Append` only QUEUES the metas for the index worker (`wNew` happens after
+`Bulk` returned), so the in-memory client, whose caller reuses its buffer, must hand over a private copy -/
+theorem c07_x_bulk_owns_metas : inMemoryBulkOrder = ["in.Metas=slices.Clone(in.Metas)", "store.Bulk"] := by decide
+
 /-- `getIDsIndex` takes the mapping first, then MIDs, then RIDs -/
 theorem c07_x_reader_order :
     getIDsIndexOrder = ["GetAllTokenLIDs.GetLIDs", "mids.GetVals", "rids.GetVals"] := by decide
